@@ -136,6 +136,7 @@ func reUFs(g *Gen) (nsub, minlen, mand string) {
 func registerRegexpModel() {
 	externals["regexp.MustCompile"] = extReMustCompile
 	externals["(*regexp.Regexp).FindStringIndex"] = extReFindStringIndex
+	externals["(*regexp.Regexp).FindString"] = extReFindString
 	externals["(*regexp.Regexp).FindStringSubmatch"] = extReFindStringSubmatch
 	externals["(*regexp.Regexp).FindAllStringSubmatch"] = extReFindAllStringSubmatch
 	externals["(*regexp.Regexp).FindAllStringSubmatchIndex"] = extReFindAllStringSubmatchIndex
@@ -150,6 +151,7 @@ func extReMustCompile(f *frame, cm *ssa.CallCommon, args []Val, st *State, name 
 	if k, ok := cm.Args[0].(*ssa.Const); ok && k.Value != nil && k.Value.Kind() == constant.String {
 		if sh, ok := analyzeRegexp(constant.StringVal(k.Value)); ok {
 			c.assume(st, fmt.Sprintf("(= (%s %s) %d)", nsub, r.T, sh.nsub))
+			c.assume(st, fmt.Sprintf("(= (%s %s) %s)", c.g.UF("re_pat", []string{SRef}, SStr), r.T, c.g.StrLit(constant.StringVal(k.Value))))
 			c.assume(st, fmt.Sprintf("(= (%s %s) %d)", minlen, r.T, sh.minLen))
 			for i := 1; i <= sh.nsub; i++ {
 				if sh.mand[i] {
@@ -227,4 +229,26 @@ func extReFindAllStringSubmatchIndex(f *frame, cm *ssa.CallCommon, args []Val, s
 	c.assume(st, fmt.Sprintf("(forall ((i Int) (j Int)) (! (=> (and (<= 0 i) (< i j) (< j (slen %s))) (<= %s %s)) :pattern ((selem %s i) (selem %s j))))", r.T, at("i", "1"), at("j", "0"), r.T, r.T))
 	c.assumed[regexpAssumption] = true
 	return r
+}
+
+// FindString: the leftmost match is a function of the pattern and the subject (regexp matching is deterministic);
+// which text that is stays uninterpreted (re_find), only its length is bounded by the subject's.
+func reFindUF(g *Gen) string {
+	uf := g.UF("re_find", []string{SStr, SStr}, SStr)
+	ax := "(assert (forall ((p Str) (s Str)) (! (<= (Str_len (re_find p s)) (Str_len s)) :pattern ((re_find p s)))))"
+	for _, a := range g.axioms {
+		if a == ax {
+			return uf
+		}
+	}
+	g.axioms = append(g.axioms, ax)
+	return uf
+}
+
+func extReFindString(f *frame, cm *ssa.CallCommon, args []Val, st *State, name string, resT types.Type, pos token.Pos) Val {
+	c := f.c
+	pat := c.g.UF("re_pat", []string{SRef}, SStr)
+	c.assumed[regexpAssumption] = true
+	c.assumed["(*regexp.Regexp).FindString(s) is a function of the pattern and s (uninterpreted: re_find(pattern, s)), no longer than s; the pattern of a regexp compiled from a constant is that constant"] = true
+	return Val{T: c.define(name, SStr, fmt.Sprintf("(%s (%s %s) %s)", reFindUF(c.g), pat, args[0].T, args[1].T)), Typ: resT}
 }
